@@ -367,7 +367,7 @@ SHAPES.update({
     'ScientificComplex.imag': 'b111047d5097cf66',
     'ScientificComplex.abs': '682bfed16853115b',
     'ScientificComplex.angle': 'f76d3be4bf8fea80',
-    'print_sinosoidal': '7ec84877c1024737',
+    'print_sinosoidal': '5f3ad7cd33229f08',
     'print_active_power': '2e3753622c1f524e',
     'print_active_reactive_power': 'b9d39f385bd93a31',
 })
@@ -437,6 +437,31 @@ def call_cfgs(fn: ast.FunctionDef, defaults: dict, where: str) -> list[str]:
                   f'deg := {opt_bool("deg")}')
         out.append(s + ' }')
     return out
+
+def _normalise_sin_shift(fn: ast.FunctionDef):
+    """`phase_value += (pi/2 | -pi/2) if sin else 0` — the sign of the quarter turn is *translated* (generated constant
+    `print_sinosoidal_sin_shift`); for the shape guard the statement is normalised to the `-pi/2` form the shape was
+    recorded with"""
+    import copy
+    fn = copy.deepcopy(fn)
+    found = []
+    for st in fn.body:
+        if isinstance(st, ast.AugAssign) and isinstance(st.op, ast.Add) and ast.unparse(st.target) == 'phase_value' \
+                and isinstance(st.value, ast.IfExp) and ast.unparse(st.value.test) == 'sin' and ast.unparse(st.value.orelse) == '0':
+            body = ast.unparse(st.value.body).replace(' ', '')
+            if body == 'pi/2': k = 1
+            elif body == '-pi/2': k = -1
+            else: raise ExtractError(f'print_sinosoidal line {st.lineno}: quarter-turn expression {body!r} outside the grammar')
+            old = st.value.body
+            new = ast.parse('-pi/2', mode='eval').body
+            for n in ast.walk(new):
+                n.lineno = old.lineno; n.col_offset = old.col_offset
+                n.end_lineno = getattr(old, 'end_lineno', old.lineno); n.end_col_offset = getattr(old, 'end_col_offset', old.col_offset)
+            st.value.body = new
+            found.append(k)
+    if len(found) != 1:
+        raise ExtractError('print_sinosoidal: the statement `phase_value += ±pi/2 if sin else 0` was not found exactly once')
+    return fn, found[0]
 
 def _replace_returns(body, field, default_const):
     """value3: every `return Float3(value=self.value, precision=self.precision[, min_exp=…, max_exp=…])`
@@ -518,11 +543,14 @@ def _gen_fmt_tables(src) -> str:
     L.append(translate(prop(sc, 'imag_sign'), 'sc_imag_sign', 'ScientificComplex.imag_sign', PT, 'Str', self_order=['im', 'compact'])[0])
     # ---- hand-modelled functions: shape guard + constants
     fns = {}
+    sin_shift = None
     for key, shape in SHAPES.items():
         if '.' in key:
             c, f = key.split('.'); fn = find_func(find_class(utils, c).body, f)
         else:
             fn = find_func(disp.body, key)
+        if key == 'print_sinosoidal':
+            fn, sin_shift = _normalise_sin_shift(fn)
         check_shape(fn, shape, key)
         fns[key] = fn
         if key in FIXED_CONSTS:
@@ -569,13 +597,15 @@ def _gen_fmt_tables(src) -> str:
     L.append('/-- every prefix table of Utils.py / Display.py -/')
     L.append('def all_tables : List Table := [sf_exp_prefixes_default, sc_exp_prefixes_default] ++ all_calls.map (·.2.table)')
     fn = fns['print_sinosoidal']
+    L.append('/-- `phase_value += <k>·pi/2 if sin else 0`: the quarter turns added for the sine form -/')
+    L.append(f'def print_sinosoidal_sin_shift : Int := {sin_shift}')
     s = consts_of(fn, str); i = consts_of(fn, int); fl = consts_of(fn, float)
-    if s[:4] != ['', 'u', 'm', 'k'] or s[11:17] != ['Hz', 'm', 'k', 'M', 'G', 'T'] or s[4] != '°' or s[17] != '/s' \
-            or s[10] != '' or i[1:2] != [0] or i[5:9] != [2, 0, 0, 2] or i[-1] != 0:
+    # layout of the constants (tables of the ScientificFloat calls are generated as CallCfg; the glue strings by name)
+    if s[:5] != ['', 'u', 'm', 'k', '°'] or s[5:8] != ['u', 'm', 'k'] or s[13] != '' or s[14:20] != ['Hz', 'm', 'k', 'M', 'G', 'T'] \
+            or s[20] != '/s' or len(s) != 25 or i[1:2] != [0] or i[5:8] != [2, 0, 0] or i[11:12] != [2] or i[-1] != 0:
         raise ExtractError(f'print_sinosoidal: constants moved: {s} {i}')
-    names = ['mul', 'sin', 'cos', 'open', 'two_pi', None, None, None, None, None, None, None, None, 't', 'plus', 'minus', 'close']
-    for nm, v in zip(names, s[5:]):
-        if nm: L.append(f'def print_sinosoidal_{nm} : List Char := {chars(v)}')
+    for nm, idx in (('mul', 8), ('sin', 9), ('cos', 10), ('open', 11), ('two_pi', 12), ('t', 21), ('plus', 22), ('minus', 23), ('close', 24)):
+        L.append(f'def print_sinosoidal_{nm} : List Char := {chars(s[idx])}')
     L.append(f'def print_sinosoidal_phase_threshold : Rat := {lean_rat_of_float(fl[0])}')
     s = consts_of(fns['print_active_power'], str)
     L.append(f'def print_active_power_down : List Char := {chars(s[1])}')
